@@ -1,7 +1,7 @@
 (* C06, Logger part ("C06log") -- terminal-safe output; counts, "Looks fine." and exit
    status add up.  Only statements; every proof is `exact <lemma>`.
    The whole-run part of C06 (output grammar on hostile trees) is a separate part. *)
-From PV Require Import Lib.Bytes Lib.Utf8 Model.Escape Model.Logger Proofs.Escape Proofs.Logger Proofs.LoggerOut.
+From PV Require Import Lib.Bytes Lib.Utf8 Model.Escape Model.Logger Proofs.Escape Proofs.Logger Proofs.LoggerInv Proofs.LoggerOut.
 Open Scope N_scope.
 
 (* textproc.XPrint = NewByteSet("\n\t -~"): newline (10), tab (9), 0x20..0x7E.
@@ -52,6 +52,20 @@ Theorem C06_exit_status_exact : forall o evs werror,
   if negb (cnt LError (l_emitted l) =? 0) || (werror && negb (cnt LWarn (l_emitted l) =? 0)) then 1 else 0.
 Proof. exact exit_status_exact. Qed.
 Print Assumptions C06_exit_status_exact.
+
+(* no panic site of logging.go is reached (the assert in SeparatorWriter.Separate, the
+   index expressions line.fix.texts[rawIndex] and args[0]) when every Apply event comes
+   with a fix whose texts cover the raw lines (NewAutofix guarantees it) and ShowSummary
+   gets a non-empty argv; the machine sets the ghost flag l_panicked at those sites *)
+Theorem C06_logger_never_panics : forall o evs,
+  Forall (fun ev => match ev with
+                    | EvFix ln fv _ _ _ _ _ => (length (ln_raws ln) <= length (fv_texts fv))%nat
+                    | EvSummary args => args <> []
+                    | _ => True
+                    end) evs ->
+  l_panicked (log_run o evs) = false.
+Proof. exact logger_never_panics. Qed.
+Print Assumptions C06_logger_never_panics.
 
 (* non-vacuity: ESC, an invalid byte and a CR in a message; one warning; -Werror *)
 Definition ex06_line : line := mk_line 1 [102; 46; 109; 107] 3 [[65; 27; 10]].
